@@ -1,4 +1,5 @@
 import Flodym.Array
+import FlodymGen.Constants
 /-!
 # Tier 1 — `SubArrayHandler`, `__getitem__`, `__setitem__`, `split`, `items_where`, stacking
 
@@ -124,6 +125,15 @@ def getitem? (x : FArr α) (key : Key) : Option (FArr α) := do
   let v ← x.values.index? h.ids
   mk? h.dimsOut v
 
+/-- does the key address the whole array? Then an ndarray on the right goes through `set_values`
+(exact shape). `...` always; the empty dict and the empty tuple when the source says so
+(`Gen.emptyKeyIsWholeArray`, the D31 repair) -/
+def _root_.Flodym.Key.whole (emptyToo : Bool) : Key → Bool
+  | .ellipsis => true
+  | .dict [] => emptyToo
+  | .tuple [] => emptyToo
+  | _ => false
+
 /-- right-hand side of an assignment -/
 inductive Rhs (α : Type) where
   | arr (y : FArr α)
@@ -143,9 +153,9 @@ def setitem? (x : FArr α) (key : Key) (rhs : Rhs α) : Option (FArr α) := do
     let nv ← x.values.indexSet? h.ids vb
     some ⟨x.dims, nv⟩
   | .nd v =>
-    match key with
-    | .ellipsis => mk? x.dims v           -- `set_values(copy(item))`: exact shape, never broadcast
-    | _ =>
+    if key.whole Gen.emptyKeyIsWholeArray then
+      mk? x.dims v                        -- `set_values(copy(item))`: exact shape, never broadcast
+    else
       let vb ← v.broadcastTo? plan.shape
       let nv ← x.values.indexSet? h.ids vb
       some ⟨x.dims, nv⟩
